@@ -5,6 +5,9 @@
 //!     Hessenberg/ternary), at power-of-two scales 2^-40 .. 2^40, in f64 and f32;
 //!   * the structured families of DESIGN §3 for n up to 40 in six aspects (square, three tall,
 //!     two wide), every member, every scale, both widths;
+//!   * matrices whose entries span many orders of magnitude (round-2 extension): every 3x3 matrix over
+//!     {0,1,-1,t} and {0,1,2,-t} with a TINY entry t = 2^-30 (f64) / 2^-12 (f32) (thorough: also
+//!     2^-40, 3x4 / 4x3 over {0,1,t}, {1,-1,-t}) and 4x4 matrices P*(I + extra + tiny fill);
 //!   * a catalogue of right-hand sides B = A*X0 (+ a part outside range(A)) with 1..4 columns.
 //! One execution = one (matrix, scale, float width); the right-hand-side catalogue is an inner
 //! loop of that execution. The oracle (check.rs) is definition-level: residuals, exact
@@ -13,6 +16,7 @@
 
 mod check;
 mod gen;
+mod tiny;
 mod util;
 
 use check::RhsMode;
@@ -111,6 +115,140 @@ fn lattice_case(job: &Job) {
         }
         let gi = gen::prepare_gram(format!("gram-of-lattice({}x{})", m, n), &g, pert.den() * pert.den(), &inp);
         check::run_case(&gi, e, w, rhs_mode(job), true);
+    }
+}
+
+/// letters of a tiny-lattice alphabet: [0, v] = the ordinary (perturbed) value v, [1, sg] = sg * t
+fn tiny_letter(l: &Value, pert: Perturb) -> tiny::Entry {
+    let v = l[1].as_i64().unwrap();
+    if l[0].as_i64() == Some(1) {
+        tiny::Entry { ord: 0, tiny: v }
+    } else {
+        tiny::Entry { ord: pert.apply(v) as i64, tiny: 0 }
+    }
+}
+
+/// Judge one matrix of the wide-dynamic-range families (scale 1) and keep the non-vacuity counters.
+fn tiny_run(label: String, c: &[Vec<tiny::Entry>], s: u32, den: i64, w: u8, mode: RhsMode, gram: bool) {
+    let inp = tiny::prepare_tiny(label, c, s, den);
+    let (m, n) = (inp.m, inp.n);
+    util::count("tiny_cases");
+    if inp.cond <= check::COND_MAX {
+        util::count("tiny_cases_cond_le_1e6");
+        if m == n && inp.rank == n {
+            util::count("tiny_lu_cases");
+            // the diagonal candidate of the first column is +-t and an ordinary non-zero entry lies
+            // below it: partial pivoting has to look past the tiny non-zero entry
+            if c[0][0].tiny != 0 && (1..m).any(|i| c[i][0].ord != 0) {
+                util::count("tiny_lu_tiny_diagonal_candidate_must_lose");
+            }
+        }
+        if inp.rank < n {
+            util::count("tiny_rank_deficient_in_domain");
+        }
+    }
+    check::run_case(&inp, 0, w, mode, false);
+    if gram && inp.rank == n && n >= 2 {
+        let (g, d2) = tiny::gram_int(c, s, den);
+        let gi = gen::prepare_gram(format!("gram-of-{}", inp.label), &g, d2, &inp);
+        check::run_case(&gi, 0, w, mode, true);
+    }
+}
+
+fn tiny_lattice_case(job: &Job) {
+    let (m, n) = (job.u("m"), job.u("n"));
+    let pert = Perturb { mul: job.i("mul") as i128, add_q: job.i("add") as i128 };
+    let letters: Vec<tiny::Entry> = job.params["letters"].as_array().unwrap().iter().map(|l| tiny_letter(l, pert)).collect();
+    let pre = ints(&job.params["pre"]);
+    let s = job.u("s") as u32;
+    let mut c = vec![vec![letters[0]; n]; m];
+    let mut has_tiny = false;
+    for idx in 0..m * n {
+        let k = if idx < pre.len() { pre[idx] as usize } else { mc::choose(letters.len()) };
+        c[idx / n][idx % n] = letters[k];
+        has_tiny |= letters[k].tiny != 0;
+    }
+    if !has_tiny {
+        // a matrix without any tiny entry belongs to the plain lattice (same perturbation) already
+        util::count("tiny_skipped_no_tiny_entry");
+        return;
+    }
+    tiny_run(format!("tiny-lattice({}x{},t=2^-{})", m, n, s), &c, s, pert.den() as i64, job.u("w") as u8, rhs_mode(job), true);
+}
+
+/// 4x4: P * (I + one extra off-diagonal entry in {1,-1,t} + tiny fill), the fill being t at ONE other
+/// off-diagonal position (11 choices) or at EVERY other off-diagonal position.
+fn tiny_fam4_case(job: &Job) {
+    let pert = Perturb { mul: job.i("mul") as i128, add_q: job.i("add") as i128 };
+    let s = job.u("s") as u32;
+    let perm = &o_permutations4()[job.u("perm")];
+    let ord = |v: i64| tiny::Entry { ord: pert.apply(v) as i64, tiny: 0 };
+    let t = tiny::Entry { ord: 0, tiny: 1 };
+    let off: Vec<(usize, usize)> = (0..4).flat_map(|i| (0..4).filter(move |j| *j != i).map(move |j| (i, j))).collect();
+    let ep = mc::choose(off.len());
+    let ev = mc::pick(&[0usize, 1, 2]);
+    let fill = mc::choose(off.len());
+    let mut b = vec![vec![ord(0); 4]; 4];
+    for i in 0..4 {
+        b[i][i] = ord(1);
+    }
+    b[off[ep].0][off[ep].1] = [ord(1), ord(-1), t][ev];
+    let others: Vec<(usize, usize)> = off.iter().copied().filter(|p| *p != off[ep]).collect();
+    if fill < others.len() {
+        b[others[fill].0][others[fill].1] = t;
+    } else {
+        for &(i, j) in &others {
+            b[i][j] = t;
+        }
+    }
+    let c: Vec<Vec<tiny::Entry>> = (0..4).map(|i| b[perm[i]].clone()).collect();
+    util::count("tiny_fam4_cases");
+    tiny_run(format!("tiny-perm4(perm={:?},extra={:?}:{},fill={},t=2^-{})", perm, off[ep], ["1", "-1", "t"][ev], if fill < others.len() { format!("{:?}", others[fill]) } else { "all".into() }, s), &c, s, pert.den() as i64, job.u("w") as u8, RhsMode::Full, true);
+}
+
+fn o_permutations4() -> Vec<Vec<usize>> {
+    mc_core::oracle::permutations(4)
+}
+
+/// (t exponent s, width) pairs of the wide-dynamic-range families
+fn tiny_exponents(thorough: bool) -> Vec<(u32, u8)> {
+    if thorough {
+        vec![(30, 64), (12, 32), (40, 64), (40, 32)]
+    } else {
+        vec![(30, 64), (12, 32)]
+    }
+}
+
+fn tiny_jobs(jobs: &mut Vec<Job>, pert: Perturb, thorough: bool) {
+    // letters: [0, v] ordinary value v, [1, sg] = sg*t
+    let a1 = json!([[0, 0], [0, 1], [0, -1], [1, 1]]);
+    let a2 = json!([[0, 0], [0, 1], [0, 2], [1, -1]]);
+    let b1 = json!([[0, 0], [0, 1], [1, 1]]);
+    let b2 = json!([[0, 1], [0, -1], [1, -1]]);
+    let mut spaces: Vec<(usize, usize, &str, &Value, usize, &str)> = vec![(3, 3, "01mt", &a1, 2, if thorough { "pw" } else { "two" }), (3, 3, "012mt", &a2, 2, if thorough { "pw" } else { "two" })];
+    if thorough {
+        for &(m, n) in &[(4usize, 3usize), (3, 4)] {
+            spaces.push((m, n, "01t", &b1, 3, "two"));
+            spaces.push((m, n, "1m1mt", &b2, 3, "two"));
+        }
+    }
+    for &(m, n, tag, letters, shard, rhs) in &spaces {
+        let k = letters.as_array().unwrap().len();
+        let mut prefixes: Vec<Vec<i64>> = vec![vec![]];
+        for _ in 0..shard {
+            prefixes = prefixes.into_iter().flat_map(|p| (0..k as i64).map(move |x| { let mut q = p.clone(); q.push(x); q })).collect();
+        }
+        for &(s, w) in &tiny_exponents(thorough) {
+            for pre in &prefixes {
+                let name = format!("tiny-lat-{}x{}-{}-f{}-t{}-p{}", m, n, tag, w, s, pre.iter().map(|x| x.to_string()).collect::<String>());
+                jobs.push(Job::new(name, json!({"kind": "tiny", "m": m, "n": n, "letters": letters, "pre": pre, "s": s, "w": w, "mul": pert.mul as i64, "add": pert.add_q as i64, "rhs": rhs})));
+            }
+        }
+    }
+    for &(s, w) in &tiny_exponents(thorough) {
+        for perm in 0..24 {
+            jobs.push(Job::new(format!("tiny-perm4-f{}-t{}-perm{}", w, s, perm), json!({"kind": "tiny4", "perm": perm, "s": s, "w": w, "mul": pert.mul as i64, "add": pert.add_q as i64})));
+        }
     }
 }
 
@@ -215,6 +353,8 @@ impl Harness for C01 {
                 lattice_jobs(&mut jobs, pert, m, n, "full", S2, &[], &scales, &both, 0, "two", true);
             }
         }
+        // 3b. wide dynamic range: a tiny non-zero entry among ordinary ones (round-2 extension)
+        tiny_jobs(&mut jobs, pert, t);
         // 4. structured families
         let nmax = if t { 40 } else { 12 };
         // quick tier: every order up to 12, plus a few orders well beyond (iteration limits, block
@@ -271,6 +411,8 @@ impl Harness for C01 {
         match job.kind() {
             "lat" => lattice_case(job),
             "fam" => family_case(job),
+            "tiny" => tiny_lattice_case(job),
+            "tiny4" => tiny_fam4_case(job),
             other => panic!("unknown job kind {}", other),
         }
     }
@@ -292,7 +434,7 @@ impl Harness for C01 {
 fn main() {
     // the parent process checks the harness' own exact arithmetic before anything is explored
     if !std::env::args().any(|a| a == "--worker" || a == "--replay") {
-        if let Err(e) = gen::selfcheck() {
+        if let Err(e) = gen::selfcheck().and_then(|_| tiny::selfcheck()) {
             eprintln!("MACHINERY-ERROR: C01 oracle self-check failed: {}", e);
             std::process::exit(2);
         }
